@@ -199,6 +199,30 @@ def with_callees(p: Program, fi, depth: int = 2):
     return list(seen.values())
 
 
+def with_private_callees(p: Program, fi, depth: int = 3):
+    """fi followed by the private helpers (leading underscore, not a dunder, same module) it calls, transitively:
+    the statements of a function that was split into private parts."""
+    seen = {fi.qualname: fi}
+    frontier = [fi]
+    for _ in range(depth):
+        nxt = []
+        for f in frontier:
+            for _n, g in static_callees(p, f):
+                last = short_name(g).split(".")[-1]
+                if g.qualname not in seen and g.module is fi.module and last.startswith("_") and not last.startswith("__"):
+                    seen[g.qualname] = g
+                    nxt.append(g)
+        frontier = nxt
+    return list(seen.values())
+
+
+def walk_own_all(p: Program, fi):
+    """walk_own over fi and its private helpers; yields (function, node)."""
+    for f in with_private_callees(p, fi):
+        for n in walk_own(f.node):
+            yield f, n
+
+
 def referenced_functions(p: Program, fi):
     """Package functions named (called or passed as a value) anywhere in fi, lambdas included."""
     import ast
